@@ -14,20 +14,43 @@ LEVEL = "proof"
 HASHSEEDS = {"quick": [0, 1, 2, 3], "thorough": [0, 1, 2, 3, 4, 5, 6, 7]}
 BUDGET_S = {"quick": 110, "thorough": 1150}
 EXHAUSTIVE = {"quick": False, "thorough": False}
-RULE = ("random DAGs on 2..5 data columns (plus sometimes a column outside the model), cardinalities 1..4, "
-        "integer / pandas Categorical / object columns, declared-but-unseen states (state_names in shuffled "
-        "order), unseen parent configurations, `_weight` rows (exact dyadics: ordinary, 2^-40..2^20 mixed, whole "
-        "configurations of total weight ~2^-35, all tiny, all large, zero weights; MLE also refitted with every "
-        "weight scaled by 2^-30 and 2^17), estimators MLE / K2 / BDeu(ess 1, 5, 2.5) / "
-        "dirichlet array / dirichlet scalar, n_jobs 1|2|-1, entry points BayesianNetwork.fit, DAG.fit, "
-        "Estimator.get_parameters; fit_update with existing CPDs declared with shuffled (unsorted) parents and "
-        "shuffled state names; EM without latents and with one latent variable (init_cpds for all / some / none of the latent-involved "
-        "nodes, the rest drawn from seed and reproduced for the model), max_iter 1..3, batch_size "
-        "None|1|2|3|4|7 against the number of distinct rows, atol None|0.01|0.2 with pgmpy's stopping rule "
-        "applied to the model's iterates, default/explicit latent_card, progress bar on/off; session stream (one caller-owned PARTIAL state_names dict reused by 2-3 successive fit / DAG.fit / "
-        "get_parameters / EM calls on folds whose observed states of the undeclared variables differ; the dict "
-        "must come back unchanged); rejection stream (node missing from data, undeclared state, wrong pseudo_counts shape).  A case "
-        "is non-trivial when some node has >=1 parent and >=2 states; distinct = distinct canonical input")
+RULE = ("random DAGs on 1..5 data columns (plus sometimes a column outside the model; single-node, edgeless and "
+        "isolated-node networks included) and 9-10-parent families, cardinalities 1..4, integer / bool / pandas "
+        "Categorical (ordered or not, with unused categories, explicit or left by boolean-mask filtering) / object "
+        "columns, row index RangeIndex / shifted / permuted / gapped / duplicate / string labels / filtered, "
+        "declared-but-unseen states (partial state_names dicts in shuffled order, integer states that are not "
+        "their positions, the same state names in several variables), unseen parent configurations, `_weight` rows "
+        "(exact dyadics: ordinary, 2^-40..2^20 mixed, 2^-200..2^200, whole configurations of total weight ~2^-35, "
+        "all tiny, all large, zero weights; MLE also refitted with every weight scaled by 2^-30 and 2^17), "
+        "estimators MLE (explicit or as fit()'s default) / K2 / BDeu(ess 0, 1, 5, 2.5, 2^-30, 2^20, scalar, per-node "
+        "dict or BayesianEstimator's defaults) / dirichlet array (list, C / Fortran / non-contiguous / int64 "
+        "ndarray, entries 0 and 2^-40..2^30) / dirichlet scalar / pseudo_counts with K2 (ignored), prior_type in any "
+        "case, n_jobs 1|2|-1, entry points BayesianNetwork.fit, DAG.fit, get_parameters, estimate_cpd, "
+        "state_counts, numpy and torch backends; fit_update with existing CPDs added in shuffled order, declared "
+        "with shuffled (unsorted) parents and shuffled state names, n_prev None / 0 / 2^-20 .. 10^6; EM without "
+        "latents and with one latent variable of cardinality 1..3 (init_cpds for all / some / none of the "
+        "latent-involved nodes in shuffled dict order, the rest drawn from seed -- 0 included -- and reproduced for "
+        "the model), max_iter 1..3, batch_size None|1|2|3|4|7 against the number of distinct rows, atol "
+        "None|0|0.01|0.2 with pgmpy's stopping rule applied to the model's iterates, default/explicit latent_card, "
+        "n_jobs 1|2, progress bar on/off, two calls on one EM object; SESSIONS: (i) one caller-owned partial "
+        "state_names dict reused by 2-3 fits on folds whose observed states differ, (ii) one BayesianNetwork object "
+        "through fit / fit_update / add_edge / remove_edge / remove_edges_from / remove_node / rejected fits, "
+        "compared after every step with the model on the CURRENT graph and data, (iii) one estimator object through "
+        "estimate_cpd / state_counts / get_parameters calls with changing node, weighted flag and prior, returned "
+        "objects mutated in between; ARGUMENT PURITY after every call: data frame (values, dtypes, categories, "
+        "index, columns), state_names, pseudo_counts / equivalent_sample_size / init_cpds / latent_card containers, "
+        "the model handed to an estimator, the previous CPD objects of fit_update; rejection stream (node missing "
+        "from data, undeclared state, wrong pseudo_counts shape -- also for the LAST node of a multi-node fit, after "
+        "which the network must be unchanged --, latent variables with MLE/Bayes, unknown prior_type, weighted "
+        "without a `_weight` column, estimator that is not a class).  Closed forms are compared RELATIVE (1e-9) to "
+        "the model's exact value at any magnitude; EM at 1e-6.  Restrictions: under the torch backend TabularCPD "
+        "builds its tensor through float32 (open finding torch-backend-float32-construction of C03), so torch cases "
+        "are compared at 1e-5 relative and get no weights outside the float32 range; variable names are strings "
+        "(integer / tuple / mixed names cannot be sorted or are level numbers for pandas unstack), so 'names that do "
+        "not sort against each other' cannot occur; the network handed to fit_update must validate, so CPDs that "
+        "list one variable's states in different orders are outside the domain; an empty data frame declares no "
+        "states and is outside the domain; max_iter=0 is outside the domain (probed and tagged only).  A case is "
+        "non-trivial when some node has >=1 parent and >=2 states; distinct = distinct canonical input")
 TRUSTED_BASE = ["pandas groupby/size/sum/unstack/reindex, numpy transpose/reshape, joblib: modelled by their "
                 "documented meaning (counting functions over rows), tied by this correspondence run",
                 "float rounding is not modelled: inputs are dyadic rationals, outputs compared at 1e-9 "
@@ -45,7 +68,9 @@ ASSUMPTIONS = ["variable names are interned to nat ids in Python's sort order of
                "object columns are fed"]
 
 CLAMP = Fraction(1, 10**10)
-STR_POOL = ["b", "a", "C", "a10", "a9", "Z", "_x", "Bb", "d", "aa", "E", "z0"]
+STR_POOL = ["b", "a", "C", "a10", "a9", "Z", "_x", "Bb", "d", "aa", "E", "z0",
+            # names that are attributes / default labels of pandas objects or look like numbers / positions
+            "index", "size", "count", "values", "level_0", "name", "variable", "columns", "0", "1"]
 
 
 # ------------------------------------------------------------------ generation helpers
@@ -63,17 +88,24 @@ def gen_col(rng, card, declare_p=0.5, extra_p=0.5, force_declare=False):
     """a column spec: type, universe of raw state names, declared order (indices into universe) or None.
     `card` states are used by the data generator (universe[:card]); extras are declared-but-unseen."""
     typ = rng.choice(["int", "int", "cat", "cat", "obj"])
+    if card <= 2 and rng.random() < 0.15:
+        typ = "bool"
     nextra = rng.choice([0, 1, 2]) if rng.random() < extra_p else 0
+    if typ == "bool":
+        nextra = 0
     tot = card + nextra
     if typ == "int":
         univ = rng.sample(range(0, 12), tot)
+    elif typ == "bool":
+        univ = rng.sample([False, True], tot)
     else:
         univ = rng.sample(["x", "y", "z", "w", "Y", "x1", "k", "m0", "A", "q"], tot)
     declared = None
     if force_declare or rng.random() < declare_p:
         declared = list(range(tot))
         rng.shuffle(declared)
-    return {"type": typ, "univ": univ, "declared": declared, "used": card}
+    return {"type": typ, "univ": univ, "declared": declared, "used": card,
+            "ordered": typ == "cat" and rng.random() < 0.25}
 
 
 def gen_rows(rng, cols, nrows, skew=True):
@@ -134,6 +166,8 @@ def gen_weights(rng, rows, mode):
         return [rng.choice([[1, 1], [1, 2], [2, 1], [1, 4], [3, 2], [5, 1], [3, 8]]) for _ in rows]
     if mode == "wide":
         return [dyw(rng, -40, 20) for _ in rows]
+    if mode == "extreme":
+        return [dyw(rng, -200, 200) for _ in rows]
     if mode == "all-tiny":
         return [dyw(rng, -40, -31) for _ in rows]
     if mode == "huge":
@@ -154,7 +188,7 @@ def gen_weights(rng, rows, mode):
 
 
 def gen_fit(rng, tier):
-    n = rng.randint(2, 5)
+    n = rng.choice([1, 2, 2, 3, 3, 4, 4, 5, 5])
     extra = rng.random() < 0.2
     names = gen_names(rng, n + (1 if extra else 0))
     nodes, edges = common.rand_dag(rng, n)
@@ -164,19 +198,28 @@ def gen_fit(rng, tier):
     rows = gen_rows(rng, cols, nrows)
     weights, wmode = None, None
     if rng.random() < 0.45:
-        wmode = rng.choice(["ordinary", "ordinary", "wide", "tiny-config", "all-tiny", "zeros", "huge"])
+        wmode = rng.choice(["ordinary", "ordinary", "wide", "tiny-config", "all-tiny", "zeros", "huge", "extreme"])
         weights = gen_weights(rng, rows, wmode)
     colorder = list(range(len(names)))
     rng.shuffle(colorder)
     case = {"kind": "fit", "names": names, "nodes": nodes, "edges": [list(e) for e in edges], "cols": cols,
             "rows": rows, "weights": weights, "wmode": wmode, "colorder": colorder,
-            "api": rng.choice(["bnfit", "bnfit", "dagfit", "est"]),
+            "api": rng.choice(["bnfit", "bnfit", "dagfit", "est", "estimate_cpd"]),
+            "index": rng.choice(INDEX_MODES), "backend": "torch" if rng.random() < 0.08 else "numpy",
+            "omit_estimator": rng.random() < 0.4, "ptcase": rng.choice(["std", "lower", "upper"]),
+            "pc_form": rng.choice(["list", "nd", "F", "view", "int"]),
             "n_jobs": rng.choice([2, 2, -1]) if rng.random() < 0.08 else 1, "loky": tier == "thorough",
             "mseed": rng.randint(0, 10**9)}
+    if case["backend"] == "torch" and wmode == "extreme":
+        case["wmode"] = "wide"
+        case["weights"] = gen_weights(rng, rows, "wide")
     est = rng.choice(["mle", "mle", "k2", "bdeu", "bdeu", "dirichlet", "dirichlet", "scalar"])
     case["est"] = est
     if est == "bdeu":
-        case["ess"] = rng.choice([[1, 1], [5, 1], [5, 2]])
+        case["ess"] = rng.choice([[1, 1], [5, 1], [5, 1], [5, 2], [0, 1], [1, 2**30], [2**20, 1]])
+        case["be_default"] = case["ess"] == [5, 1] and rng.random() < 0.6   # no prior arguments at all
+    if est == "k2":
+        case["k2_pc"] = rng.random() < 0.3    # pseudo_counts passed with K2: documented to be ignored
     if est == "scalar":
         case["c"] = rng.choice([[1, 1], [1, 2], [0, 1], [3, 1]])
     if est == "dirichlet":
@@ -189,8 +232,9 @@ def gen_fit(rng, tier):
             for u in ps:
                 q *= len(st[u])
             zero_p = rng.choice([0.0, 0.0, 0.3, 1.0])
-            pcs[str(i)] = [[([0, 1] if rng.random() < zero_p else dy(rng, 1, 20, 4)) for _ in range(q)]
-                           for _ in range(len(st[i]))]
+            widep = rng.random() < 0.3
+            pcs[str(i)] = [[([0, 1] if rng.random() < zero_p else (dyw(rng, -40, 30) if widep else dy(rng, 1, 20, 4)))
+                            for _ in range(q)] for _ in range(len(st[i]))]
         case["pcs"] = pcs
     return case
 
@@ -199,9 +243,19 @@ def gen_reject(rng):
     case = gen_fit(rng, "quick")
     case["n_jobs"] = 1
     case["weights"] = None
-    what = rng.choice(["missing-col", "undeclared", "shape"])
+    what = rng.choice(["missing-col", "undeclared", "shape", "shape", "latent-mle", "bad-prior-type",
+                       "weighted-no-column", "estimator-not-class"])
     case["kind"] = "reject"
     case["what"] = what
+    case["backend"] = "numpy"
+    if what in ("latent-mle", "bad-prior-type", "weighted-no-column", "estimator-not-class"):
+        if case["est"] == "dirichlet":
+            case["est"] = "k2"
+            case.pop("pcs", None)
+        if what == "bad-prior-type" and case["est"] == "mle":
+            case["est"] = "k2"
+        case["be_default"] = False
+        return case
     n = len(case["nodes"])
     if what == "missing-col":
         case["drop"] = rng.choice(case["nodes"])
@@ -272,7 +326,9 @@ def gen_fit_update(rng, tier):
     rng.shuffle(colorder)
     case = {"kind": "fit_update", "names": names, "nodes": nodes, "edges": [list(e) for e in edges], "cols": cols,
             "rows": rows, "weights": None, "colorder": colorder, "n_jobs": rng.choice([2, -1]) if rng.random() < 0.06 else 1,
-            "n_prev": rng.choice([None, [1, 1], [8, 1], [3, 1], [5, 2], [100, 1]])}
+            "n_prev": rng.choice([None, None, [1, 1], [8, 1], [3, 1], [5, 2], [100, 1], [0, 1], [1, 2**20], [10**6, 1]]),
+            "index": rng.choice(INDEX_MODES), "backend": "torch" if rng.random() < 0.08 else "numpy",
+            "mseed": rng.randint(0, 10**9)}
     prev = {}
     for i in nodes:
         ps = parents_of(case, i)
@@ -291,21 +347,24 @@ def gen_em(rng, tier, latent):
     nodes, edges = common.rand_dag(rng, n, p=rng.choice([0.35, 0.6]))
     cards = [rng.choice([1, 2, 2, 3]) for _ in range(n)]
     cols = [gen_col(rng, c, declare_p=0.3, extra_p=0.3) for c in cards]
-    rows = gen_rows(rng, cols, rng.choice([2, 4, 6, 9, 12, 16]), skew=False)
+    rows = gen_rows(rng, cols, rng.choice([2, 4, 6, 9, 12] if latent else [2, 4, 6, 9, 12, 16]), skew=False)
     colorder = list(range(n))
     rng.shuffle(colorder)
     case = {"kind": "em1" if latent else "em0", "names": names, "nodes": nodes, "edges": [list(e) for e in edges],
             "cols": cols, "rows": rows, "weights": None, "colorder": colorder, "lat": None,
             # optional parameters of get_parameters: batch size of the E-step relative to the number of DISTINCT
             # rows (non-divisors included), convergence tolerance, progress bar, default latent cardinality
-            "batch_size": rng.choice([None, None, 1, 2, 3, 4, 7]), "atol": rng.choice([None, None, None, 0.01, 0.2]),
-            "show_progress": rng.random() < 0.3, "lc_default": rng.random() < 0.5, "probe0": rng.random() < 0.15}
+            "batch_size": rng.choice([None, None, 1, 2, 3, 4, 7]), "atol": rng.choice([None, None, None, 0.01, 0.2, 0]),
+            "show_progress": rng.random() < 0.3, "lc_default": rng.random() < 0.5, "probe0": rng.random() < 0.15,
+            "index": rng.choice(INDEX_MODES), "backend": "torch" if rng.random() < 0.06 else "numpy",
+            "em_n_jobs": 2 if rng.random() < 0.1 else 1, "objsession": rng.random() < 0.3,
+            "mseed": rng.randint(0, 10**9)}
     st = col_states(case)
     cardof = {i: len(st[i]) for i in range(n)}
     if latent:
         L = n
         case["lat"] = L
-        case["lat_card"] = rng.choice([2, 2, 3])
+        case["lat_card"] = rng.choice([2, 2, 2, 3, 3, 1])
         cardof[L] = case["lat_card"]
         # the latent gets 1..3 children and possibly a parent
         kids = rng.sample(range(n), rng.randint(1, min(3, n)))
@@ -318,7 +377,7 @@ def gen_em(rng, tier, latent):
         rng.shuffle(case["edges"])
         need = set([L] + kids)
         case["mode"] = rng.choice(["init", "init", "seed", "partial"])
-        case["seed"] = rng.randint(0, 1000)
+        case["seed"] = rng.choice([0, rng.randint(0, 1000)])
     else:
         need = set()
         case["mode"] = "init"
@@ -398,24 +457,170 @@ def gen_session(rng, tier):
     rng.shuffle(colorder)
     return {"kind": "session", "names": names, "nodes": nodes, "edges": [list(e) for e in edges], "cols": cols,
             "rows": folds[0], "folds": folds, "ops": [rng.choice(SESSION_OPS) for _ in folds], "weights": None,
-            "colorder": colorder, "ess": [5, 1], "mseed": rng.randint(0, 10**9)}
+            "colorder": colorder, "ess": [5, 1], "mseed": rng.randint(0, 10**9), "index": rng.choice(INDEX_MODES)}
+
+
+def _acyclic_with(edges, e):
+    return not _reaches(edges, e[1], e[0])
+
+
+def gen_objsession(rng, tier):
+    """ONE BayesianNetwork object through a sequence of fit / fit_update / graph edits (add_edge, remove_edge,
+    remove_edges_from, remove_node) / rejected fits; after every fit the CPDs must be the model's for the CURRENT
+    graph and the CURRENT data, after a rejected call the network must be what it was"""
+    n = rng.randint(2, 4)
+    names = gen_names(rng, n)
+    nodes, edges = common.rand_dag(rng, n, p=rng.choice([0.4, 0.7]))
+    cols = []
+    for _ in range(n):
+        c = gen_col(rng, rng.choice([1, 2, 2, 3]), force_declare=True, extra_p=0.3)
+        if c["type"] == "obj":
+            c["type"] = "cat"
+        cols.append(c)
+    cur_nodes, cur_edges = list(nodes), [list(e) for e in edges]
+    steps, has = [], False
+    nsteps = rng.randint(4, 6)
+    for k in range(nsteps):
+        last = k == nsteps - 1
+        opts = ["fit", "fit"]
+        if has:
+            opts += ["fit_update", "fit_update", "bad_fit"]
+        if not last:
+            opts += ["add_edge", "remove_edge", "remove_edges_from", "remove_node", "bad_fit"]
+        if k == 0 or (last and not has):
+            opts = ["fit"]
+        op = rng.choice(opts)
+        rows = gen_rows(rng, cols, rng.choice([2, 4, 7, 10]))
+        if op == "fit":
+            steps.append({"op": "fit", "est": rng.choice(["mle", "k2", "bdeu"]), "rows": rows})
+            has = True
+        elif op == "fit_update":
+            steps.append({"op": "fit_update", "rows": rows, "n_prev": rng.choice([None, [1, 1], [6, 1], [5, 2]])})
+        elif op == "bad_fit":
+            steps.append({"op": "bad_fit", "what": rng.choice(["undeclared", "shape"]), "rows": rows,
+                          "victim": rng.randrange(len(cur_nodes))})
+        elif op == "add_edge":
+            cand = [[u, v] for u in cur_nodes for v in cur_nodes if u != v and [u, v] not in cur_edges
+                    and [v, u] not in cur_edges and _acyclic_with(cur_edges, [u, v])]
+            if not cand:
+                continue
+            e = rng.choice(cand)
+            cur_edges.append(e)
+            steps.append({"op": "add_edge", "e": e})
+            has = False
+        elif op in ("remove_edge", "remove_edges_from"):
+            if not cur_edges:
+                continue
+            e = rng.choice(cur_edges)
+            cur_edges.remove(e)
+            steps.append({"op": op, "e": e})
+            has = False
+        else:
+            if len(cur_nodes) < 2:
+                continue
+            v = rng.choice(cur_nodes)
+            cur_nodes.remove(v)
+            cur_edges = [e for e in cur_edges if v not in e]
+            steps.append({"op": "remove_node", "v": v})
+            has = False
+    if not has:
+        steps.append({"op": "fit", "est": rng.choice(["mle", "k2"]), "rows": gen_rows(rng, cols, 5)})
+    colorder = list(range(n))
+    rng.shuffle(colorder)
+    return {"kind": "objsession", "names": names, "nodes": nodes, "edges": [list(e) for e in edges], "cols": cols,
+            "rows": steps[0]["rows"], "steps": steps, "weights": None, "colorder": colorder, "ess": [5, 1],
+            "mseed": rng.randint(0, 10**9), "index": rng.choice(INDEX_MODES),
+            "backend": "torch" if rng.random() < 0.08 else "numpy"}
+
+
+def gen_estsession(rng, tier):
+    """ONE estimator object: a sequence of estimate_cpd / state_counts / get_parameters calls with changing
+    node, weighted flag and prior; returned objects are mutated between calls"""
+    case = gen_fit(rng, tier)
+    if len(case["nodes"]) == 1 and rng.random() < 0.5:
+        case = gen_fit(rng, tier)
+    case["kind"] = "estsession"
+    case["n_jobs"] = 1
+    case["weights"] = gen_weights(rng, case["rows"], rng.choice(["ordinary", "ordinary", "tiny-config", "zeros"]))
+    case["cls"] = rng.choice(["mle", "be"])
+    case.pop("pcs", None)
+    steps = []
+    for _ in range(rng.randint(4, 7)):
+        st = {"call": rng.choice(["estimate_cpd", "estimate_cpd", "state_counts", "get_parameters"]),
+              "node": rng.choice(case["nodes"]), "weighted": rng.random() < 0.5, "mutate": rng.random() < 0.7}
+        if case["cls"] == "be":
+            pr = rng.choice(["k2", "bdeu", "scalar"])
+            st["prior"] = pr
+            if pr == "bdeu":
+                st["ess"] = rng.choice([[1, 1], [5, 1], [5, 2]])
+            if pr == "scalar":
+                st["c"] = rng.choice([[1, 1], [1, 2], [3, 1]])
+        steps.append(st)
+    case["steps"] = steps
+    return case
+
+
+def gen_wide(rng, tier):
+    """one child with 9-10 parents (more than 8 variables in one factor; a 10-dimensional transpose in fit_update)"""
+    k = rng.choice([9, 9, 10])
+    names = rng.sample(STR_POOL, k + 1)
+    cards = [rng.choice([2, 2, 3])] + [rng.choice([1, 2, 2, 2]) for _ in range(k)]
+    upd = rng.random() < 0.5
+    cols = [gen_col(rng, c, declare_p=0.5, extra_p=0.0, force_declare=upd) for c in cards]
+    for c in cols:
+        if c["type"] == "obj":
+            c["type"] = "cat"
+    edges = [[p, 0] for p in range(1, k + 1)]
+    rng.shuffle(edges)
+    nodes = list(range(k + 1))
+    rng.shuffle(nodes)
+    rows = gen_rows(rng, cols, rng.choice([8, 15, 25]))
+    colorder = list(range(k + 1))
+    rng.shuffle(colorder)
+    case = {"names": names, "nodes": nodes, "edges": edges, "cols": cols, "rows": rows, "weights": None,
+            "colorder": colorder, "n_jobs": 1, "mseed": rng.randint(0, 10**9), "index": rng.choice(INDEX_MODES),
+            "backend": "numpy", "nometa": True, "wide": True}
+    if upd:
+        case["kind"] = "fit_update"
+        case["n_prev"] = rng.choice([None, [4, 1]])
+        prev = {}
+        for i in nodes:
+            ps = parents_of(case, i)
+            rng.shuffle(ps)
+            q = 1
+            for u in ps:
+                q *= len(cols[u]["declared"])
+            prev[str(i)] = {"parents": ps, "table": rand_cpd_table(rng, len(cols[i]["declared"]), q)}
+        case["prev"] = prev
+    else:
+        case["kind"] = "fit"
+        case["est"] = rng.choice(["mle", "k2"])
+        case["api"] = rng.choice(["bnfit", "est", "estimate_cpd"])
+        case["wmode"] = None
+    return case
 
 
 def cases(tier, seed):
     rng = random.Random(seed)
     k = 1 if tier == "quick" else 10
     out = [d4_case()]
-    for _ in range(520 * k):
+    for _ in range(400 * k):
         out.append(gen_fit(rng, tier))
-    for _ in range(60 * k):
+    for _ in range(70 * k):
         out.append(gen_reject(rng))
-    for _ in range(220 * k):
+    for _ in range(170 * k):
         out.append(gen_fit_update(rng, tier))
+    for _ in range(70 * k):
+        out.append(gen_objsession(rng, tier))
+    for _ in range(70 * k):
+        out.append(gen_estsession(rng, tier))
+    for _ in range(6 * k):
+        out.append(gen_wide(rng, tier))
     for _ in range(60 * k):
         out.append(gen_em(rng, tier, False))
-    for _ in range(90 * k):
+    for _ in range(60 * k):
         out.append(gen_em(rng, tier, True))
-    for _ in range(90 * k):
+    for _ in range(70 * k):
         out.append(gen_session(rng, tier))
     return out
 
@@ -465,29 +670,108 @@ def raw(col, s):
     return col["univ"][s]
 
 
+INDEX_MODES = ["range", "range", "shift", "perm", "gap", "dup", "str", "filtered"]
+
+
 def make_frame(case, rows=None, weights="case", colorder=None, drop=None):
+    """the pandas frame of a case.  case["index"] chooses the row index (never data): RangeIndex, shifted,
+    permuted labels, gapped, duplicate labels, string labels, or "filtered": the frame is a boolean-mask filter
+    of a larger frame (gapped index, and categorical columns keep a category no remaining row uses)"""
     import pandas as pd
     rows = case["rows"] if rows is None else rows
     weights = case["weights"] if weights == "case" else weights
     colorder = case["colorder"] if colorder is None else colorder
+    mode = case.get("index", "range")
+    irng = random.Random(case.get("mseed", 0) + 7 * len(rows))
+    keep = [True] * len(rows)
+    if mode == "filtered":
+        keep = []
+        for _ in rows:
+            while irng.random() < 0.4:
+                keep.append(False)
+            keep.append(True)
+        keep.append(False)
+    use = [i for i in colorder if i != case.get("lat") and i != drop and i < len(case["cols"])]
     data = {}
-    for i in colorder:
-        if i == case.get("lat") or i == drop or i >= len(case["cols"]):
-            continue
+    for i in use:
         col = case["cols"][i]
-        vals = [raw(col, r[i]) for r in rows]
+        it = iter(rows)
+        vals = []
+        for k in keep:
+            vals.append(raw(col, next(it)[i]) if k else None)
+        junk = {"int": 97, "bool": True, "cat": "__junk", "obj": "__junk"}[col["type"]]
+        vals = [junk if v is None else v for v in vals]
         nm = case["names"][i]
         if col["type"] == "int":
             data[nm] = pd.Series(vals, dtype="int64")
+        elif col["type"] == "bool":
+            data[nm] = pd.Series(vals, dtype=bool)
         elif col["type"] == "cat":
-            data[nm] = pd.Series(pd.Categorical(vals, categories=list(col["univ"])))
+            cats = list(col["univ"]) + (["__junk"] if mode == "filtered" else [])
+            data[nm] = pd.Series(pd.Categorical(vals, categories=cats, ordered=bool(col.get("ordered"))))
         else:
             data[nm] = pd.Series(vals, dtype=object)
-    df = pd.DataFrame(data, columns=[case["names"][i] for i in colorder
-                                     if i != case.get("lat") and i != drop and i < len(case["cols"])])
+    df = pd.DataFrame(data, columns=[case["names"][i] for i in use])
+    n = len(df)
+    if mode == "filtered":
+        df = df[pd.Series(keep)]
+    elif mode == "shift":
+        df.index = range(5, 5 + n)
+    elif mode == "perm":
+        lab = list(range(n))
+        irng.shuffle(lab)
+        df.index = lab
+    elif mode == "gap":
+        lab, c = [], 0
+        for _ in range(n):
+            c += irng.randint(1, 9)
+            lab.append(c)
+        df.index = lab
+    elif mode == "dup":
+        df.index = [k // 2 for k in range(n)]
+    elif mode == "str":
+        df.index = ["r%d" % (n - k) for k in range(n)]
     if weights is not None:
         df["_weight"] = [w[0] / w[1] for w in weights]
     return df
+
+
+class Impure(Exception):
+    """a library call modified one of its arguments"""
+
+
+def snap_frame(df):
+    return df.copy(deep=True)
+
+
+def check_frame_unchanged(df, snap, what="data"):
+    if list(df.columns) != list(snap.columns) or not df.index.equals(snap.index) \
+            or list(map(str, df.dtypes)) != list(map(str, snap.dtypes)) or not df.equals(snap):
+        raise Impure("%s frame modified by the call (columns %s dtypes %s)" % (what, list(df.columns), list(map(str, df.dtypes))))
+    for c in df.columns:
+        if str(df[c].dtype) == "category" and list(df[c].cat.categories) != list(snap[c].cat.categories):
+            raise Impure("%s frame: categories of %s modified" % (what, c))
+
+
+def deep_equal(a, b):
+    import numpy as np
+    if isinstance(a, dict):
+        return isinstance(b, dict) and list(a) == list(b) and all(deep_equal(a[k], b[k]) for k in a)
+    if isinstance(a, (list, tuple)):
+        return type(a) is type(b) and len(a) == len(b) and all(deep_equal(x, y) for x, y in zip(a, b))
+    if isinstance(a, np.ndarray):
+        return isinstance(b, np.ndarray) and a.shape == b.shape and a.dtype == b.dtype and bool(np.array_equal(a, b)) \
+            and a.flags["C_CONTIGUOUS"] == b.flags["C_CONTIGUOUS"]
+    if hasattr(a, "variables") and hasattr(a, "get_values"):   # TabularCPD
+        import numpy as np
+        return list(a.variables) == list(b.variables) and deep_equal(dict(a.state_names), dict(b.state_names)) \
+            and bool(np.array_equal(np.asarray(a.get_values()), np.asarray(b.get_values())))
+    return type(a) is type(b) and a == b
+
+
+def graph_sig(g):
+    return (list(g.nodes()), list(g.edges()), sorted(map(str, getattr(g, "latents", set()))),
+            [id(c) for c in getattr(g, "cpds", [])])
 
 
 def state_names_kw(case):
@@ -571,10 +855,28 @@ def compare_cpd(case, st, vid, i, cpd, named, ps_ids, tol, what):
                 if math.isfinite(got):
                     return bad("impl!=model:%s-value" % what, {"node": names[i], "assignment": _s(kw),
                                                                 "impl": got, "model": "non-finite"})
-            elif not common.approx(got, exp, tol):
+            elif not close(got, exp, tol):
                 return bad("impl!=model:%s-value" % what, {"node": names[i], "assignment": _s(kw), "impl": got,
                                                             "model": float(exp), "model_exact": str(exp)})
     return nan_cols
+
+
+# under the torch backend pgmpy's TabularCPD constructor takes its values through float32 (torch.Tensor(values)):
+# 1e-5 relative there (DESIGN section 3), and no magnitudes outside the float32 range are generated
+TOL_FLOOR = [0.0]
+
+
+def close(got, exp, tol):
+    """closed forms (tol < 1e-7): RELATIVE to the model's exact value, whatever its magnitude; EM (tol 1e-6):
+    absolute for |value| <= 1, because the model's iterates are rounded to a 2^-32 grid between iterations"""
+    got, exp = float(got), float(exp)
+    if got != got or exp != exp:
+        return False
+    if tol >= 1e-7:
+        return common.approx(got, exp, max(tol, TOL_FLOOR[0]))
+    if tol == 0.0:
+        return got == exp
+    return abs(got - exp) <= max(tol, TOL_FLOOR[0]) * abs(exp) + 1e-300
 
 
 def cpd_at(cpd, kw):
@@ -613,7 +915,7 @@ def same_named(a, b, tol=1e-9):
         x, y = a[k], b[k]
         if math.isfinite(x) != math.isfinite(y):
             return False
-        if math.isfinite(x) and not common.approx(x, y, tol):
+        if math.isfinite(x) and not close(x, y, tol):
             return False
     return True
 
@@ -644,46 +946,98 @@ def pgmpy_fit(case, df, edges=None, nodes=None, sn=None):
     return _pgmpy_fit(case, df, edges, nodes, sn)
 
 
+def pc_array(t, form):
+    """a pseudo_counts table in one of the container forms a caller may hand over"""
+    import numpy as np
+    vals = [[c[0] / c[1] for c in row] for row in t]
+    if form == "list":
+        return vals
+    a = np.array(vals, dtype=float)
+    if form == "F":
+        return np.asfortranarray(a)
+    if form == "view":
+        return np.ascontiguousarray(a.T).T      # a non-contiguous view of another buffer
+    if form == "int" and all(c[1] == 1 for row in t for c in row):
+        return np.array([[c[0] for c in row] for row in t], dtype=np.int64)
+    return a
+
+
 def _pgmpy_fit(case, df, edges=None, nodes=None, sn=None):
+    import copy
     import numpy as np
     from pgmpy.base import DAG
     from pgmpy.models import BayesianNetwork
     from pgmpy.estimators import MaximumLikelihoodEstimator, BayesianEstimator
     est = case["est"]
+    names = case["names"]
+    pt = {"std": lambda x: x, "lower": str.lower, "upper": str.upper}[case.get("ptcase", "std")]
     kw = {}
     if est == "k2":
-        kw = {"prior_type": "K2"}
+        kw = {"prior_type": pt("K2")}
+        if case.get("k2_pc"):
+            kw["pseudo_counts"] = {names[i]: [[7.0]] for i in case["nodes"]}
     elif est == "bdeu":
         e = case["ess"][0] / case["ess"][1]
-        kw = {"prior_type": "BDeu", "equivalent_sample_size": int(e) if e == int(e) and case["mseed"] % 2 else e}
+        kw = {"prior_type": pt("BDeu"), "equivalent_sample_size": int(e) if e == int(e) and case["mseed"] % 2 else e}
         if case["mseed"] % 5 == 0:  # the per-node dict form of equivalent_sample_size
-            kw["equivalent_sample_size"] = {case["names"][i]: e for i in case["nodes"]}
+            kw["equivalent_sample_size"] = {names[i]: e for i in case["nodes"]}
+        if case.get("be_default"):
+            kw = {}                  # BayesianEstimator defaults: BDeu with equivalent_sample_size 5
     elif est == "scalar":
         c = case["c"][0] / case["c"][1]
-        kw = {"prior_type": "dirichlet", "pseudo_counts": int(c) if c == int(c) else c}
+        kw = {"prior_type": pt("dirichlet"), "pseudo_counts": int(c) if c == int(c) else c}
     elif est == "dirichlet":
-        kw = {"prior_type": "dirichlet",
-              "pseudo_counts": {case["names"][int(i)]: np.array([[c[0] / c[1] for c in row] for row in t],
-                                                               dtype=float).reshape(len(t), -1 if t else 0)
-                                for i, t in case["pcs"].items()}}
+        kw = {"prior_type": pt("dirichlet"),
+              "pseudo_counts": {names[int(i)]: pc_array(t, case.get("pc_form", "nd")) for i, t in case["pcs"].items()}}
     if case["weights"] is not None:
         kw["weighted"] = True
+    own_sn = sn is None
     if sn is None:
         sn = state_names_kw(case)
     cls = MaximumLikelihoodEstimator if est == "mle" else BayesianEstimator
     api = case["api"]
-    if api == "est":
+    # ---- argument purity: deep snapshots of everything handed over
+    df_snap, kw_snap, sn_snap = snap_frame(df), copy.deepcopy(kw), copy.deepcopy(sn)
+
+    def purity(g=None, gsig=None):
+        check_frame_unchanged(df, df_snap)
+        if not deep_equal(kw, kw_snap):
+            raise Impure("keyword arguments modified: %s" % sorted(kw))
+        if own_sn and not deep_equal(sn, sn_snap):
+            raise Impure("state_names modified")
+        if g is not None and graph_sig(g) != gsig:
+            raise Impure("the model passed to the estimator was modified")
+
+    if api in ("est", "estimate_cpd"):
         g = make_graph(case, BayesianNetwork, edges, nodes)
+        gsig = graph_sig(g)
         e = cls(g, df, state_names=sn) if sn else cls(g, df)
-        cpds = e.get_parameters(n_jobs=case["n_jobs"], **kw)
+        if api == "est":
+            cpds = e.get_parameters(n_jobs=case["n_jobs"], **kw)
+        else:
+            cpds = []
+            order = list(case["nodes"] if nodes is None else nodes)
+            for i in order:
+                k1 = dict(kw)
+                if isinstance(k1.get("pseudo_counts"), dict):
+                    k1["pseudo_counts"] = k1["pseudo_counts"][names[i]]
+                if isinstance(k1.get("equivalent_sample_size"), dict):
+                    k1["equivalent_sample_size"] = k1["equivalent_sample_size"][names[i]]
+                cpds.append(e.estimate_cpd(names[i], **k1))
+        purity(g, gsig)
         return {c.variable: c for c in cpds}, None
     g = make_graph(case, DAG if api == "dagfit" else BayesianNetwork, edges, nodes)
+    gsig = graph_sig(g)
+    kw2 = dict(kw)
+    if not (est == "mle" and case.get("omit_estimator")):
+        kw2["estimator"] = cls          # MaximumLikelihoodEstimator is the default of fit()
     if sn or case["mseed"] % 3:
-        m = g.fit(df, estimator=cls, state_names=sn, n_jobs=case["n_jobs"], **kw)
+        m = g.fit(df, state_names=sn, n_jobs=case["n_jobs"], **kw2)
     else:
-        m = g.fit(df, estimator=cls, n_jobs=case["n_jobs"], **kw)
+        m = g.fit(df, n_jobs=case["n_jobs"], **kw2)
     if m is None:  # BayesianNetwork.fit of older versions returned None and fitted in place
         m = g
+    purity(g if api == "dagfit" else None, gsig)
     return {c.variable: c for c in m.get_cpds()}, m
 
 
@@ -748,6 +1102,8 @@ def run_fit(case, drv):
                 ("parent-order", df, e2, n2)]
     c1 = dict(case)
     c1["n_jobs"] = 1
+    if case.get("nometa"):
+        variants = []
     for label, d2, ee, nn in variants:
         cp2, _ = pgmpy_fit(c2 if label == "row-order" else c1, d2, ee, nn)
         for i in fitted_nodes:
@@ -796,6 +1152,41 @@ def _key(case):
 # ------------------------------------------------------------------ rejection paths
 def run_reject(case, drv):
     names = case["names"]
+    what = case["what"]
+    if what in ("latent-mle", "bad-prior-type", "weighted-no-column", "estimator-not-class"):
+        # calls the estimators document as invalid: must raise, never fit quietly
+        from pgmpy.models import BayesianNetwork
+        from pgmpy.estimators import MaximumLikelihoodEstimator, BayesianEstimator
+        df = make_frame(case)
+        g = make_graph(case, BayesianNetwork)
+        cls = MaximumLikelihoodEstimator if case["est"] == "mle" else BayesianEstimator
+        kw = {} if case["est"] == "mle" else {"prior_type": "K2"}
+        exp = ValueError
+        try:
+            if what == "latent-mle":
+                g.latents = {names[case["nodes"][0]]}
+                if case["api"] in ("est", "estimate_cpd"):
+                    cls(g, df).get_parameters(**kw)
+                else:
+                    g.fit(df, estimator=cls, **kw)
+            elif what == "bad-prior-type":
+                BayesianEstimator(g, df).get_parameters(prior_type="jeffreys")
+            elif what == "weighted-no-column":
+                if case["api"] in ("est", "estimate_cpd"):
+                    cls(g, df).get_parameters(weighted=True, **kw)
+                else:
+                    g.fit(df, estimator=cls, weighted=True, **kw)
+            else:
+                exp = TypeError
+                g.fit(df, estimator=rng_choice(case, ["MaximumLikelihoodEstimator", 3, cls(g, df)]))
+            impl = "accepted"
+        except exp:
+            impl = "rejected"
+        if impl != "rejected":
+            return bad("impl!=spec:invalid-call-accepted", {"what": what, "api": case["api"], "est": case["est"]})
+        if g.get_cpds():
+            return bad("impl!=spec:rejected-call-left-cpds", {"what": what})
+        return ok(nontrivial=True, key=common.canon_key(_key(case) + [what]), tags=["reject " + what])
     st = col_states(case)
     vid, cards, cols, rows = model_frame(case, st)
     mnodes = [[vid[i], [vid[u] for u in parents_of(case, i)]] for i in case["nodes"]]
@@ -813,6 +1204,10 @@ def run_reject(case, drv):
     if st_ != "err" or code != exp_code or impl != "ValueError":
         return bad("impl!=model:rejection", {"what": case["what"], "impl": impl, "model": [st_, code if st_ == "err" else "ok"]})
     return ok(nontrivial=True, key=common.canon_key(_key(case) + [case["what"]]), tags=["reject " + case["what"]])
+
+
+def rng_choice(case, options):
+    return options[case.get("mseed", 0) % len(options)]
 
 
 # ------------------------------------------------------------------ fit_update
@@ -844,16 +1239,26 @@ def run_fit_update(case, drv):
     reply = drv.call("c06_fit_update", req)
     m = make_graph(case, BayesianNetwork)
     old = {i: make_tabular(case, st, i, case["prev"][str(i)]) for i in case["nodes"]}
-    m.add_cpds(*old.values())
+    order = list(case["nodes"])
+    random.Random(case.get("mseed", 0)).shuffle(order)      # order in which the existing CPDs were added
+    m.add_cpds(*[old[i] for i in order])
     if not m.check_model():
         return bad("harness:bad-prior-model", {})
+    import copy
+    old_snap = {i: copy.deepcopy(old[i]) for i in old}
     df = make_frame(case)
+    df_snap = snap_frame(df)
     npv = None if case["n_prev"] is None else (case["n_prev"][0] // case["n_prev"][1] if case["n_prev"][1] == 1
                                                 else case["n_prev"][0] / case["n_prev"][1])
     import joblib
     with joblib.parallel_config(backend="threading"):
         m.fit_update(df, n_prev_samples=npv, n_jobs=case["n_jobs"])
+    check_frame_unchanged(df, df_snap)
+    for i in old:   # the previous CPD objects (the caller may still hold them) are inputs
+        if not deep_equal(old[i], old_snap[i]):
+            raise Impure("fit_update modified the previous CPD object of %s" % names[i])
     unsorted_asym = False
+    nan_total = 0
     for i, rep in zip(case["nodes"], reply):
         ps_ids, named = decode_named(rep)
         r = compare_cpd(case, st, vid, i, m.get_cpds(names[i]), named, ps_ids, 1e-9, "fit_update")
@@ -867,6 +1272,7 @@ def run_fit_update(case, drv):
             except common.ModelError:
                 pass
             return r
+        nan_total += r
         pp = case["prev"][str(i)]["parents"]
         if [vid[u] for u in pp] != sorted(vid[u] for u in pp) and len(set(len(st[u]) for u in pp)) > 1:
             unsorted_asym = True
@@ -874,8 +1280,8 @@ def run_fit_update(case, drv):
         valid = bool(m.check_model())
     except ValueError:
         valid = False
-    if not valid:
-        return bad("impl!=spec:updated-model-validates", {})
+    if valid != (nan_total == 0):     # nan only with n_prev = 0 and an unseen parent configuration
+        return bad("impl!=spec:updated-model-validates", {"check_model": valid, "model_nan_cells": nan_total})
     # ---- the property sentence itself on pgmpy: fit_update == Bayesian fit with prior = previous CPD, looked
     # up by NAMED parent configuration, times n_prev
     nprev_f = float(n_prev)
@@ -973,20 +1379,32 @@ def run_em(case, drv):
         g = make_graph(case, BayesianNetwork, nodes=allnodes, latents=latents)
         return ExpectationMaximization(g, df, state_names=sn) if sn else ExpectationMaximization(g, df)
 
-    def pg_em(k):
-        em = make_em()
+    def pg_em(k, em=None):
+        import copy
+        import joblib
+        em = em or make_em()
         kw = {"max_iter": k, "show_progress": bool(case.get("show_progress"))}
         if L is not None and not (case.get("lc_default") and case["lat_card"] == 2):
             kw["latent_card"] = {names[L]: case["lat_card"]}
         if init_keys:
-            kw["init_cpds"] = {names[i]: make_tabular(case, st, i, case["init"][str(i)]) for i in init_keys}
+            ks = list(init_keys)
+            random.Random(case.get("mseed", 0) + k).shuffle(ks)       # dict order of init_cpds is free
+            kw["init_cpds"] = {names[i]: make_tabular(case, st, i, case["init"][str(i)]) for i in ks}
         if case["mode"] != "init":
             kw["seed"] = case["seed"]
         if case.get("batch_size"):
             kw["batch_size"] = case["batch_size"]
         if case.get("atol") is not None:
             kw["atol"] = case["atol"]
-        return {c.variable: c for c in em.get_parameters(**kw)}
+        if case.get("em_n_jobs", 1) > 1:
+            kw["n_jobs"] = case["em_n_jobs"]
+        kw_snap, df_snap = copy.deepcopy(kw), snap_frame(df)
+        with joblib.parallel_config(backend="threading"):
+            res = em.get_parameters(**kw)
+        check_frame_unchanged(df, df_snap)
+        if not deep_equal(kw, kw_snap):
+            raise Impure("EM.get_parameters modified one of its arguments (init_cpds / latent_card)")
+        return {c.variable: c for c in res}
 
     atol = 1e-8 if case.get("atol") is None else case["atol"]
     tags += ["batch_size=%s" % case.get("batch_size"), "atol=%s" % case.get("atol"),
@@ -1121,6 +1539,19 @@ def run_em(case, drv):
         tags.append("converged-at-iteration-%d" % stopped)
     if knife:
         tags.append("convergence-knife-edge")
+    if case.get("objsession"):
+        # two calls on ONE estimator object, the first result mutated in between: the second call must give what
+        # a fresh object gives
+        em_s = make_em()
+        first = pg_em(1, em_s)
+        for c in first.values():
+            c.values[...] = 0.5
+        second = pg_em(2, em_s)
+        fresh = pg_em(2)
+        for i in allnodes:
+            if not same_named(cpd_named_values(case, st, i, second[names[i]]), cpd_named_values(case, st, i, fresh[names[i]])):
+                return bad("impl!=spec:em-second-call-on-same-object", {"node": str(names[i])})
+        tags.append("em object session")
     probe_max_iter_0(case, pg_em, tags)
     return ok(nontrivial=True, key=common.canon_key(_key(case)), tags=tags)
 
@@ -1192,9 +1623,234 @@ def run_session(case, drv):
     return ok(nontrivial=True, key=common.canon_key(_key(case) + [case["folds"], case["ops"]]), tags=sorted(set(tags)))
 
 
+def tables_from_reply(case, st, vid, cards, node_list, reply):
+    """{node index: (sorted parent ids, named exact values)}"""
+    out = {}
+    for i, rep in zip(node_list, reply):
+        out[i] = decode_named(rep)
+    return out
+
+
+def run_objsession(case, drv):
+    import copy
+    import numpy as np
+    from pgmpy.models import BayesianNetwork
+    from pgmpy.estimators import MaximumLikelihoodEstimator, BayesianEstimator
+    names = case["names"]
+    vid = vids(names)
+    m = make_graph(case, BayesianNetwork)
+    cur_nodes, cur_edges = list(case["nodes"]), [list(e) for e in case["edges"]]
+    cur = None            # model tables of the network's current CPDs, None when stale (after a graph edit)
+    tags = ["objsession steps=%d" % len(case["steps"])]
+    sn = state_names_kw(case)
+    for k, stp in enumerate(case["steps"]):
+        op = stp["op"]
+        tags.append("objsession op=" + op)
+        sub = dict(case, nodes=cur_nodes, edges=cur_edges, rows=stp.get("rows", case["rows"]), kind="fit",
+                   est=stp.get("est", "mle"), api="bnfit", n_jobs=1)
+        if op == "fit_update":
+            # fit_update looks up a CPD for EVERY data column, so (unlike fit) the frame may not carry the columns
+            # of nodes that were removed from the network
+            sub["colorder"] = [i for i in case["colorder"] if i in cur_nodes]
+        if op in ("fit", "fit_update", "bad_fit"):
+            st = col_states(sub)
+            _, cards, cols, rows = model_frame(sub, st)
+            mnodes = [[vid[i], [vid[u] for u in parents_of(sub, i)]] for i in cur_nodes]
+            wrows = [[r, Fraction(1)] for r in rows]
+            df = make_frame(sub)
+            df_snap = snap_frame(df)
+        if op == "fit":
+            reply = drv.call("c06_fit", [cards, cols, wrows, mnodes, prior_wire(sub, vid)])
+            cls = MaximumLikelihoodEstimator if stp["est"] == "mle" else BayesianEstimator
+            kw = {"mle": {}, "k2": {"prior_type": "K2"}, "bdeu": {"prior_type": "BDeu", "equivalent_sample_size": 5}}[stp["est"]]
+            ret = m.fit(df, estimator=cls, state_names=dict(sn), **kw)
+            if ret is not None and ret is not m:
+                return bad("impl!=spec:fit-returned-another-object", {"step": k})
+        elif op == "fit_update":
+            prevs = []
+            for i in cur_nodes:
+                ps_ids, named = cur[i]
+                cfgs = list(itertools.product(*[range(cards[p]) for p in ps_ids]))
+                prevs.append([vid[i], ps_ids, named_to_table(named, len(st[i]), cfgs)])
+            n_prev = fr(stp["n_prev"]) if stp["n_prev"] else Fraction(len(rows))
+            reply = drv.call("c06_fit_update", [cards, cols, wrows, mnodes, prevs, n_prev])
+            npv = None if stp["n_prev"] is None else stp["n_prev"][0] / stp["n_prev"][1]
+            m.fit_update(df, n_prev_samples=npv)
+        elif op == "bad_fit":
+            before = {i: cpd_named_values(sub, st, i, m.get_cpds(names[i])) for i in cur_nodes} if cur else None
+            gs = (sorted(map(str, m.nodes())), sorted(map(str, m.edges())))
+            victim = cur_nodes[stp["victim"] % len(cur_nodes)]
+            try:
+                if stp["what"] == "undeclared":
+                    seen = sorted(set(r[victim] for r in stp["rows"]))
+                    bad_sn = dict(sn)
+                    col = case["cols"][victim]
+                    bad_sn[names[victim]] = [raw(col, s_) for s_ in col["declared"] if s_ != seen[-1]]
+                    m.fit(df, state_names=bad_sn)
+                else:
+                    # valid pseudo_counts for every node but the LAST one estimated
+                    pcs = {}
+                    order = list(m.nodes())
+                    for nm in order:
+                        i = names.index(nm)
+                        q = 1
+                        for u in parents_of(sub, i):
+                            q *= len(st[u])
+                        pcs[nm] = np.ones((len(st[i]), q + (1 if nm == order[-1] else 0)))
+                    m.fit(df, estimator=BayesianEstimator, prior_type="dirichlet", pseudo_counts=pcs, state_names=dict(sn))
+                return bad("impl!=spec:invalid-call-accepted", {"step": k, "what": stp["what"]})
+            except ValueError:
+                pass
+            if (sorted(map(str, m.nodes())), sorted(map(str, m.edges()))) != gs:
+                return bad("impl!=spec:rejected-call-changed-graph", {"step": k})
+            if cur:
+                for i in cur_nodes:
+                    c = m.get_cpds(names[i])
+                    if c is None or not same_named(before[i], cpd_named_values(sub, st, i, c), 0.0):
+                        return bad("impl!=spec:rejected-call-changed-cpds", {"step": k, "what": stp["what"], "node": str(names[i])})
+            check_frame_unchanged(df, df_snap)
+            continue
+        elif op == "add_edge":
+            m.add_edge(names[stp["e"][0]], names[stp["e"][1]])
+            cur_edges.append(stp["e"])
+            cur = None
+            continue
+        elif op == "remove_edge":
+            m.remove_edge(names[stp["e"][0]], names[stp["e"][1]])
+            cur_edges = [e for e in cur_edges if e != stp["e"]]
+            cur = None
+            continue
+        elif op == "remove_edges_from":
+            m.remove_edges_from([(names[stp["e"][0]], names[stp["e"][1]])])
+            cur_edges = [e for e in cur_edges if e != stp["e"]]
+            cur = None
+            continue
+        else:
+            m.remove_node(names[stp["v"]])
+            cur_nodes = [v for v in cur_nodes if v != stp["v"]]
+            cur_edges = [e for e in cur_edges if stp["v"] not in e]
+            cur = None
+            continue
+        # after fit / fit_update: one CPD per CURRENT node, equal to the model's
+        check_frame_unchanged(df, df_snap)
+        got = {c.variable: c for c in m.get_cpds()}
+        if set(got) != set(names[i] for i in cur_nodes) or len(m.get_cpds()) != len(cur_nodes):
+            return bad("impl!=model:objsession-nodes", {"step": k, "op": op, "impl": sorted(map(str, got))})
+        cur = tables_from_reply(sub, st, vid, cards, cur_nodes, reply)
+        for i in cur_nodes:
+            ps_ids, named = cur[i]
+            r = compare_cpd(sub, st, vid, i, got[names[i]], named, ps_ids, 1e-9, "objsession-step%d-%s" % (k, op))
+            if isinstance(r, dict):
+                r["detail"]["ops_so_far"] = [x["op"] for x in case["steps"][:k + 1]]
+                return r
+        if not m.check_model():
+            return bad("impl!=spec:fitted-model-validates", {"step": k})
+    return ok(nontrivial=True, key=common.canon_key(_key(case) + [case["steps"]]), tags=sorted(set(tags)))
+
+
+def run_estsession(case, drv):
+    from pgmpy.models import BayesianNetwork
+    from pgmpy.estimators import MaximumLikelihoodEstimator, BayesianEstimator
+    names = case["names"]
+    st = col_states(case)
+    vid, cards, cols, rows = model_frame(case, st)
+    df = make_frame(case)
+    df_snap = snap_frame(df)
+    g = make_graph(case, BayesianNetwork)
+    gsig = graph_sig(g)
+    sn = state_names_kw(case)
+    cls = MaximumLikelihoodEstimator if case["cls"] == "mle" else BayesianEstimator
+    e = cls(g, df, state_names=sn) if sn else cls(g, df)
+    tags = ["estsession cls=" + case["cls"], "estsession steps=%d" % len(case["steps"])]
+    inv = {vid[k]: k for k in range(len(names))}
+    for k, stp in enumerate(case["steps"]):
+        w = case["weights"] if stp["weighted"] else [[1, 1]] * len(rows)
+        wrows = [[r, fr(x)] for r, x in zip(rows, w)]
+        i = stp["node"]
+        call = stp["call"]
+        tags.append("estsession call=%s%s" % (call, " weighted" if stp["weighted"] else ""))
+        sub = dict(case, est=stp.get("prior", "mle"), ess=stp.get("ess"), c=stp.get("c"))
+        kw = {}
+        if case["cls"] == "be":
+            kw = {"k2": {"prior_type": "K2"}, "bdeu": {"prior_type": "BDeu", "equivalent_sample_size": (stp.get("ess") or [5, 1])[0] / (stp.get("ess") or [5, 1])[1]},
+                  "scalar": {"prior_type": "dirichlet", "pseudo_counts": (stp.get("c") or [1, 1])[0] / (stp.get("c") or [1, 1])[1]}}[stp["prior"]]
+        if call == "state_counts":
+            ps_ids, named = decode_named(drv.call("c06_counts", [cards, cols, wrows, vid[i], [vid[u] for u in parents_of(case, i)]]))
+            sc = e.state_counts(names[i], weighted=stp["weighted"])
+            ps = [inv[p_] for p_ in ps_ids]
+            if list(sc.index) != [raw(_col(case, i), s_) for s_ in st[i]]:
+                return bad("impl!=model:state_counts-index", {"node": str(names[i]), "impl": list(map(str, sc.index))})
+            if ps and list(sc.columns.names) != [names[u] for u in ps]:
+                return bad("impl!=model:state_counts-column-levels", {"node": str(names[i]), "impl": list(map(str, sc.columns.names))})
+            for pi in itertools.product(*[range(len(st[u])) for u in ps]):
+                for x in range(len(st[i])):
+                    rlab = raw(_col(case, i), st[i][x])
+                    if ps:
+                        clab = tuple(raw(_col(case, u), st[u][s_]) for u, s_ in zip(ps, pi))
+                        got = float(sc.loc[rlab, clab if len(clab) > 1 else clab])
+                    else:
+                        got = float(sc.loc[rlab].iloc[0])
+                    if not close(got, named[(x, tuple(pi))], 1e-9):
+                        return bad("impl!=model:state_counts-value", {"node": str(names[i]), "step": k, "weighted": stp["weighted"],
+                                                                     "impl": got, "model": str(named[(x, tuple(pi))])})
+            if stp["mutate"]:
+                sc.iloc[:, :] = 3.0
+            continue
+        targets = list(case["nodes"]) if call == "get_parameters" else [i]
+        reply = drv.call("c06_fit", [cards, cols, wrows, [[vid[t], [vid[u] for u in parents_of(case, t)]] for t in targets],
+                                     prior_wire(sub, vid)])
+        if call == "get_parameters":
+            res = e.get_parameters(weighted=stp["weighted"], **kw)
+        else:
+            res = [e.estimate_cpd(names[i], weighted=stp["weighted"], **kw)]
+        res = {c.variable: c for c in res}
+        if set(res) != set(names[t] for t in targets):
+            return bad("impl!=model:estsession-nodes", {"step": k, "impl": sorted(map(str, res))})
+        for t, rep in zip(targets, reply):
+            ps_ids, named = decode_named(rep)
+            r = compare_cpd(case, st, vid, t, res[names[t]], named, ps_ids, 1e-9, "estsession-step%d-%s" % (k, call))
+            if isinstance(r, dict):
+                r["detail"]["calls_so_far"] = [(x["call"], x["weighted"], x.get("prior")) for x in case["steps"][:k + 1]]
+                return r
+        if stp["mutate"]:
+            for c in res.values():
+                c.values[...] = 0.5
+    check_frame_unchanged(df, df_snap)
+    if graph_sig(g) != gsig:
+        raise Impure("the model passed to the estimator was modified")
+    return ok(nontrivial=any(parents_of(case, i) for i in case["nodes"]),
+              key=common.canon_key(_key(case) + [case["steps"], case["cls"]]), tags=sorted(set(tags)))
+
+
 def run_case(case, drv):
+    """backend switch (numpy / torch float64 on cpu) and the argument-purity verdict around the per-kind runners"""
+    torch_on = case.get("backend") == "torch"
+    if torch_on:
+        import torch
+        from pgmpy import config
+        config.set_backend("torch", device="cpu", dtype=torch.float64)
+        TOL_FLOOR[0] = 1e-5
+    else:
+        TOL_FLOOR[0] = 0.0
+    try:
+        out = run_case_kind(case, drv)
+    except Impure as e:
+        out = bad("impl!=spec:argument-modified", {"what": str(e)})
+    finally:
+        if torch_on:
+            config.set_backend("numpy")
+    if out is not None and "tags" in out:
+        out["tags"] = list(out["tags"]) + ["backend=" + case.get("backend", "numpy"), "index=" + case.get("index", "range")]
+    return out
+
+
+def run_case_kind(case, drv):
     if case["kind"] == "session":
         return run_session(case, drv)
+    if case["kind"] == "objsession":
+        return run_objsession(case, drv)
+    if case["kind"] == "estsession":
+        return run_estsession(case, drv)
     k = case["kind"]
     if k == "fit":
         return run_fit(case, drv)
